@@ -85,6 +85,7 @@ type interpreter struct {
 	globals            map[*ssa.Global]*value
 	sizes              types.Sizes
 	runtimeErrorString types.Type
+	lastClock          *smt.Term // latest reading of the clock stub
 	cfg                *Config
 	solver             *smt.Solver
 
@@ -134,6 +135,7 @@ type interpreter struct {
 	choices      map[string]string
 	onces        map[*value]*onceState
 	pools        map[*value]*poolState
+	syncMaps     map[*value]*omap
 	atomicMu     map[*value]*value
 	bufs         map[*value]*[]byte
 	nextChanID   int
@@ -372,6 +374,7 @@ func (i *interpreter) runPath(fn *ssa.Function, prefix []int) (res *PathResult) 
 	i.pending = nil
 	i.symbols, i.symKinds = nil, nil
 	i.symNames = map[string]int{}
+	i.lastClock = nil
 	i.steps = 0
 	i.maxSteps = i.cfg.MaxSteps
 	i.threads = nil
@@ -383,6 +386,7 @@ func (i *interpreter) runPath(fn *ssa.Function, prefix []int) (res *PathResult) 
 	i.wgs = map[*value]*wgState{}
 	i.onces = nil
 	i.pools = nil
+	i.syncMaps = nil
 	i.atomicMu = nil
 	i.bufs = nil
 	i.counts = map[string]int{}
